@@ -388,6 +388,11 @@ func main() {
 				return runOne(cs.In, []string{"replay"})
 			})
 		}
+		// The real migration managers of wtxmgr and waddrmgr through
+		// wallet.Open (one database transaction for both components).
+		if err := realCases(out); err != nil {
+			return err
+		}
 		r := gen.New(c.Seed, 19)
 		// Systematic part: a failure injected at every position of a fixed
 		// unordered table, for every stored version around the range.
